@@ -35,6 +35,7 @@ type Oracle struct {
 	SweepPts   int  // crash points of real SaveCache calls evaluated exhaustively (afterSave)
 	tampered   bool // a cache file was truncated by hand (not a crash): start-up may then fail in LoadCache
 	earlyEmpty bool // an empty batch older than the last block was handed out
+	preEpoch   bool // a batch (empty or not) stamped before the unix epoch - or not stamped at all: the zero time.Time - was handed out
 	Peeks      int  // reads made by a client of the node while the execution layer worked
 	// Cfg.Loop (loop.go)
 	Rounds      int      // rounds made by the node's own production loop
@@ -74,6 +75,8 @@ func (o *Oracle) cause(dflt string) string {
 		return "crash-inside-cache-file-write"
 	case o.cutStop:
 		return "torn-cache-file"
+	case o.preEpoch:
+		return "batch-stamped-before-the-unix-epoch"
 	case o.earlyEmpty:
 		return "empty-batch-with-earlier-timestamp"
 	}
@@ -142,6 +145,9 @@ func (o *Oracle) gaveBatch(it *Item) {
 	}
 	if o.lastMaxB > 0 && size > o.lastMaxB {
 		o.OverLimit++
+	}
+	if it.ZeroTs || it.Ts < EpochMs {
+		o.preEpoch = true
 	}
 	if len(it.Txs) == 0 && h >= o.w.Cfg.Initial {
 		if hd, err := st.GetHeader(o.w.ctx, h); err == nil && it.Ts < nanoToMs(hd.BaseHeader.Time) {
